@@ -301,9 +301,10 @@ static void on_abort(int tid, void *arg) { Shared *sh = (Shared *)arg; int prog 
 
 // ------------------------------------------------------------------ execution of one plan
 struct Viol { string cls, detail; };
+static const size_t STACK_LIMIT = 32u << 10;
 struct Stats {
     uint64_t plans = 0, steps = 0, events = 0, ctx_switches = 0, seq_steps = 0, ops = 0, lib_calls = 0, threads_hist[rt::MAXT + 1] = { 0 }, policy_hist[5] = { 0 };
-    uint64_t alloc_fault_not_comparable = 0, exit_plans = 0, exit_handlers_run = 0, relay_plans = 0, relay_handovers = 0, handoff_plans = 0, calls_by_main_before_start = 0, calls_by_main_after_join = 0, alloc_faults_attached = 0, aborted_calls = 0, spin_yields = 0, inconclusive_shadow_overflow = 0, write_shared = 0, sync_ops = 0, atomic_ops = 0, pseudo_writes = 0, outcome_cmp = 0, globals_dirty_after_seq = 0, races_seen = 0;
+    uint64_t stack_used_max = 0, alloc_fault_not_comparable = 0, exit_plans = 0, exit_handlers_run = 0, relay_plans = 0, relay_handovers = 0, handoff_plans = 0, calls_by_main_before_start = 0, calls_by_main_after_join = 0, alloc_faults_attached = 0, aborted_calls = 0, spin_yields = 0, inconclusive_shadow_overflow = 0, write_shared = 0, sync_ops = 0, atomic_ops = 0, pseudo_writes = 0, outcome_cmp = 0, globals_dirty_after_seq = 0, races_seen = 0;
     std::set<uint64_t> interleavings, plan_hashes, nontrivial;
     uint64_t kind[NKINDS] = { 0 };
 };
@@ -392,6 +393,9 @@ static void run_plan(const Plan &p, bool want_log, RunOut &ro, bool count = true
     // the idnkit stand-in checks every create / destroy / use of a resolver context
     if (g_sim_nreports > 0) viol(string("C14:") + g_sim_report_cls[0], g_sim_report_detail[0]);
 #endif
+    // a worker needs a few KiB of stack on the unchanged tree (see max_worker_stack_bytes_used in the evidence); whoever creates
+    // threads with small stacks (PTHREAD_STACK_MIN is 16 KiB, musl's default is 128 KiB) relies on that order of magnitude
+    if (res.stack_used_max > STACK_LIMIT) viol("C14:stack-use-beyond-small-thread-stacks", "thread " + std::to_string(res.stack_used_thread) + " used " + std::to_string(res.stack_used_max >= (256u << 10) ? 256 : (int)(res.stack_used_max >> 10)) + (res.stack_used_max >= (256u << 10) ? "+" : "") + " KiB of stack below its thread function; the limit checked is " + std::to_string(STACK_LIMIT >> 10) + " KiB");
     if (!res.bad_free.empty()) viol("C14:free-of-thread-memory", res.bad_free);
     if (!sh.dangling.empty()) viol("C14:object-points-into-finished-thread", sh.dangling);
     // ---- oracle 3: progress
@@ -424,7 +428,7 @@ static void run_plan(const Plan &p, bool want_log, RunOut &ro, bool count = true
         ST.threads_hist[p.nthreads]++; ST.policy_hist[cfg.policy % 5]++;
         ST.write_shared += res.write_shared_locations; ST.sync_ops += res.sync_ops; ST.atomic_ops += res.atomic_ops; ST.pseudo_writes += res.pseudo_writes; ST.spin_yields += res.spin_yields;
         if (dirty) ST.globals_dirty_after_seq++;
-        ST.races_seen += res.races.size();
+        ST.races_seen += res.races.size(); if (res.stack_used_max > ST.stack_used_max) ST.stack_used_max = res.stack_used_max;
         for (auto &op : p.ops) { ST.kind[op.k]++; if (op.mf) ST.alloc_faults_attached++; }
         { bool ex = false; for (auto &op : p.ops) if (op.k == EXIT) ex = true; if (ex) ST.exit_plans++; ST.exit_handlers_run += sh.exit_handlers_run; }
         if (sh.relay) { ST.relay_plans++; for (auto &it : sh.items) if (it.needs_post) ST.relay_handovers++; }
@@ -459,7 +463,7 @@ static void build_pool() {
         "user@example.com.", "u@sub.example.net.", "u@mail.ru.", "x@iana.org.", "u@a.test.", "u@localhost.", "u@hidden.onion.", "u@host.museum.", "u@\xd0\xbf\xd0\xbe\xd1\x87\xd1\x82\xd0\xb0.\xd1\x80\xd1\x84.",
         "u@aaaaaaaaaaaaaaaaaaaaaaaaaaaaaaaaaaaaaaaaaaaaaaaaaaaaaaaaaaaaaaaaaaaaaaaaaaaaaaaaaaaaaaaaaaaaaaaaaaaaaaaaaaaaaaaaaaaaaaaaaaaaaaa.com", "u@a.b.c.d.e.f.g.h.i.j.k.l.m.n.o.p.q.r.s.t.u.v.w.x.y.z.example.org", "\xd1\x82\xd0\xb5\xd1\x81\xd1\x82@b\xc3\xbc" "cher.de" };
     for (auto m : more) g_pool.push_back(m);
-    for (size_t n : { (size_t)1023, (size_t)1025, (size_t)1100, (size_t)5000 }) { string dom; while (dom.size() + 12 < n) dom += "abcdefghij."; dom += "com"; g_pool.push_back("user@" + dom); g_pool.push_back("\xd0\xb8@" + dom); }
+    for (size_t n : { (size_t)1023, (size_t)1025, (size_t)1100, (size_t)5000, (size_t)20000, (size_t)40000, (size_t)60000 }) { string dom; while (dom.size() + 12 < n) dom += "abcdefghij."; dom += "com"; g_pool.push_back("user@" + dom); g_pool.push_back("\xd0\xb8@" + dom); }
     // TLD pairs where one name is a proper prefix of the other and the classes differ: a cache or scratch buffer
     // shared between threads turns one into the other
     int nt = 0; while (tld_list[nt].domain) nt++;
@@ -467,7 +471,9 @@ static void build_pool() {
         g_all_tld_addrs.push_back(string("u@m.") + tld_list[i].domain);
         if (!strncmp(tld_list[i].domain, "xn--", 4)) g_idn_tld_addrs.push_back(string("u@m.") + tld_list[i].domain);
     }
-    for (int i = 0; i < nt && g_pairs.size() < 400; i++) for (int j = 0; j < nt; j++) {
+    for (int i = 0; i < nt; i++) { string a = tld_list[i].domain; if (a.size() >= 14 && (i % 2) == 0) g_pairs.push_back({ "u@x." + a + a.back(), "u@x." + a }); }     // unknown neighbour of a long TLD, then the TLD
+    size_t pairs_cap = g_pairs.size() + 400;
+    for (int i = 0; i < nt && g_pairs.size() < pairs_cap; i++) for (int j = 0; j < nt; j++) {
         if (i == j) continue;
         size_t li = strlen(tld_list[i].domain), lj = strlen(tld_list[j].domain);
         if (li < lj && !strncmp(tld_list[i].domain, tld_list[j].domain, li) && tld_list[i].type != tld_list[j].type && (i * 31 + j) % 5 == 0)
@@ -642,6 +648,7 @@ static sj::Value stats_json() {
     j.set("library_constructors", (long long)rt::library_constructors()); j.set("library_exit_handlers_now", (long long)rt::library_exit_handlers());
     j.set("relay_plans", ST.relay_plans); j.set("objects_handed_between_live_workers", ST.relay_handovers);
     j.set("handoff_plans", ST.handoff_plans); j.set("calls_by_main_before_start", ST.calls_by_main_before_start); j.set("calls_by_main_after_join", ST.calls_by_main_after_join);
+    j.set("max_worker_stack_bytes_used", ST.stack_used_max);
     j.set("alloc_faults_attached", ST.alloc_faults_attached); j.set("programs_not_comparable_after_alloc_fault", ST.alloc_fault_not_comparable); j.set("calls_aborted_inside_library", ST.aborted_calls);
     j.set("sync_ops", ST.sync_ops); j.set("atomic_ops", ST.atomic_ops); j.set("spin_yields", ST.spin_yields); j.set("hidden_state_libc_calls", ST.pseudo_writes);
     j.set("plans_where_library_statics_changed", ST.globals_dirty_after_seq); j.set("racing_pairs_seen", ST.races_seen);
